@@ -23,6 +23,8 @@ def main():
                 print("FAILED", key, ex)
             print(key.split("::")[1], kinds, "->", len(eng.obligations) - n0, "obligations")
     print("gen time", round(time.time() - t0, 2))
+    if getattr(eng, "vacuous_exits", None):
+        print("VACUOUS LOOP EXITS (broken contract):", eng.vacuous_exits)
     d = verify.Discharger(eng, timeout_s=int(__import__("os").environ.get("T", "10")))
     res = d.discharge_all(eng.obligations)
     bad = 0
